@@ -27,4 +27,7 @@ let () =
   register "c04_tx_ser" (function [a] -> bytes_r (Model.c04_tx_ser (tx_of a)) | _ -> raise (Bad "arity"));
   register "c04_tx_ser_nowit" (function [a] -> bytes_r (Model.c04_tx_ser_nowit (tx_of a)) | _ -> raise (Bad "arity"));
   register "c04_txin_default" (function [a; b] -> bytes_r (Model.c04_txin_default (vb a) (vb b)) | _ -> raise (Bad "arity"));
-  register "c04_txid" (function [a] -> ROk (VB (Model.c04_txid sha256 (vb a))) | _ -> raise (Bad "arity"))
+  register "c04_txid" (function [a] -> ROk (VB (Model.c04_txid sha256 (vb a))) | _ -> raise (Bad "arity"));
+  register "c04_block_ids" (function [a] ->
+      of_result (fun l -> VL (List.map (fun ((t, w), r) -> VT [VB t; VB w; VB r]) l)) (Model.c04_block_ids sha256 (vb a))
+                                   | _ -> raise (Bad "arity"))
